@@ -40,8 +40,17 @@ KNOWN_CAUGHT = "C02-caught-failure-untracked"
 KNOWN_DELETED = "C02-deleted-object-in-formula-globals"
 
 
-def classify(deep_hit, live=None, query=None, result=None, want=None):
+KNOWN_DELSPACE = "C02-deleted-space-uncached-cells"
+
+
+def classify(deep_hit, live=None, query=None, result=None, want=None, ops=None):
     """known findings are recognised by their specific trigger"""
+    if (want is not None and want.startswith("err Formula Deleted") and result and result.startswith("ok")
+            and ops is not None and S.deleted_space_held_uncached(ops)):
+        # a space holding an uncached cells was deleted: on_delete clears the values the cells of the space
+        # hold; an uncached cells holds none, and its object node - with what cached callers elsewhere computed
+        # through it - stays in the trace graph
+        return KNOWN_DELSPACE
     if want is not None and want.startswith("err Formula Deleted") and result and result.startswith("ok"):
         # a formula calls a cells (or reads a space) through a reference whose target has been deleted:
         # the globals of the formula still hold the bound method of the deleted implementation
@@ -93,7 +102,7 @@ class H(S.Hooks):
         if want != result and not ("Deep" in want or "Deep" in result):
             what = "%s.%s(%s)" % (op[1], op[2], op[3]) if op[0] == "eval" else "%s[%s].%s(%s)" % tuple(op[1:5])
             out.fail("%s returns %s but a model to which only the edits were applied returns %s" % (
-                what, result, want), S.hist_json(ops, k), key=classify(deep_hit, live, cell, result, want))
+                what, result, want), S.hist_json(ops, k), key=classify(deep_hit, live, cell, result, want, ops))
 
     def end(self, live, ops, out, stats):
         deep0 = deep_counter.count
@@ -116,7 +125,7 @@ class H(S.Hooks):
                     last = ["eval", p, cn, arg]
                 out.fail("%s returns %s but a model to which only the edits were applied returns %s" % (q, v, w),
                          S.hist_json(ops + [last]),
-                         key=classify(deep_counter.count > deep0, live, (p, cn), v, w))
+                         key=classify(deep_counter.count > deep0, live, (p, cn), v, w, ops))
                 break
 
 
